@@ -52,6 +52,7 @@ out.append('* `C11-e1`: a short all-in lowers the minimum raise, so a player who
 out.append('* `C04-e1`: an overflow in the below-the-wager test of `Raise` for levels next to `MinInt64`. The action (raise) was offered, so C04 is not concerned; it is C12\'s "a request below the current wager is refused", and **C12 catches the change** (`below-wager-not-refused/huge`).')
 out.append('* `C04-f1`: the preflop round is skipped when only one seat still has chips after the blinds, although the other seat owes part of the big blind. No betting round takes place, so there is no turn order to get wrong; what is broken is C05\'s "never closed while a player with chips has put in less than the wager to match", and **C05 catches the change** (`closed-early/owes`).')
 out.append('* `C04-f2`: a second posting of the blinds by a seat that has posted *on its own through the per-player method* (`Player(i).PayBlinds()`) is refused half-way through the table operation. On the pinned code that very sequence charges the seat twice: per-player posting followed by the table operation is not a sequence the engine supports (nothing in the repository does it), so the generators do not produce it, and a check that did would alarm on the unchanged tree.')
+out.append('* `C08-a` (round 1): removed the activation of the seats the button passes, on the grounds that they are opened together with the rest of the seats anyway. It broke the heads-up case and was caught; since the repair of finding F9 (`891eda8`) opens those seats before heads-up positions are decided, the seed\'s own demonstration passes with the change applied - the change has become property-preserving and the silence is right (the same edit survives as a mutant in §10.5).')
 out.append('* `C14-g1`: only shows in a configuration that requires more hole cards than a player holds (3 required of 2). The pinned engine accepts that configuration but cannot evaluate it (it reports four-card "hands"), so it is not among the accepted configurations the generators draw from.')
 out.append('* `C19-f1`: only shows when a table *refuses* the players the regulator assigns to it (the assign callback returns an error). C09/C19/C20 are stated for "tables that follow its instructions"; on the pinned code a refusing table already loses the refused players or makes the dispatch loop spin, so refusals are outside the domain (listed under the assumptions of these checks).')
 out.append('')
